@@ -370,9 +370,16 @@ def register_metarize(reg):
 
     reg.add(Contract(
         f'{CHUNK}.max_hits_per_layer', properties=('C03',),
+        params={'self': ChunkForMetarize('layers')},
         result=lambda name, ctx, self: SInt(self.ghost['max_hits'], 'int'),
-        notes=('ASSUMED (library meaning, bounded stand-in in C03): the number of distinct (ceilo, dt) measurements of the chunk, '
-               'a Python int >= 1 (construction refuses empty frames)')))
+        ensures=lambda result, self, _ty=None: {'is_total': result == self.ghost['max_hits']},
+        expr_contracts={'out': dict(
+            source="[len(np.unique(self.data[self.data['ceilo'] == ceilo]['dt'])) for ceilo in self.ceilos]",
+            value=lambda interp, fr: GhostHits(fr.env['self'].ghost['max_hits']),
+            doc=('per-ceilometer numbers of distinct time stamps of the chunk; their sum is the number of distinct (ceilometer, time) '
+                 'measurements (ghost max_hits >= 1); ASSUMED library meaning, checked by the bounded stand-in of C03'))},
+        canaries={'zero': lambda result, self: result == 0},
+        notes='the counting expression is pinned by its exact AST; the function body around it is verified (sum, int())'))
 
     for which in WHICH:
         pass
@@ -481,8 +488,7 @@ def register_metarize2(reg):
         cases=[(w, {'self': ChunkForMetarize(w), 'which': Const(w)}) for w in WHICH],
         ensures=_metarize_post,
         loops={0: {'invariant': _metarize_inv, 'modifies': ['pdf', 'ind', '_'], 'modifies_cols': {'pdf': ['code']},
-                   'col_models': {'code': lambda n: fresh_column(n, 'code', 'str', None, with_defd=True)},
-                   'assume_in_body': lambda E, i: reveal_code(E.pdf.col('okta')[i], E.pdf.col('height_base')[i])}},
+                   'col_models': {'code': lambda n: fresh_column(n, 'code', 'str', None, with_defd=True)}}},
         canaries={'unsorted': lambda result, self, which: z3.BoolVal(False) if not isinstance(self.fields['_' + which], STable) else
                   Forall(0, self.fields['_' + which].n, lambda i: Not(self.fields['_' + which].col('significant')[i]))},
     ))
